@@ -312,7 +312,7 @@ theorem dataplanes_agree_partial
       cases evalTiers env (pktOfD st) .dest tiers <;> simp <;> (cases evalProfiles true env (pktOfD st) profiles <;> rfl)
     rw [heq]
     exact h09
-  · have := polprog_verdict_partial env st _ hok hs hnosplit hshort prog hi
+  · have := polprog_verdict_partial env st _ hok hs (Or.inl hnosplit) hshort prog hi
     rw [verdict_workload] at this
     exact this
   · exact checker_tiers_ref env (pktOfD st) _ hn rfl
